@@ -41,6 +41,7 @@ type kEp struct {
 	node                 int
 	ready, serving, term bool
 	hint                 string // zone hint, used when the service carries hints
+	noHint               bool   // terminating endpoint whose hint was withdrawn (hints are meant for ready endpoints)
 }
 
 type kPort struct {
@@ -136,7 +137,11 @@ func (s *kSvc) String() string {
 		if e.term {
 			f += "T"
 		}
-		es = append(es, fmt.Sprintf("%s@n%d[%s]%s", e.ip, e.node, f, e.hint))
+		hint := e.hint
+		if e.noHint {
+			hint = "-"
+		}
+		es = append(es, fmt.Sprintf("%s@n%d[%s]%s", e.ip, e.node, f, hint))
 	}
 	return fmt.Sprintf("%s %s cip=%s ports=%v ext=%v lb=%v etpLocal=%v itpLocal=%v aff=%d topoAuto=%v hints=%v eps=%v",
 		s.name, typ, s.clusterIP, ps, s.ext, s.lb, s.etpLocal, s.itpLocal, s.aff, s.topoAuto, s.hints, es)
@@ -218,7 +223,7 @@ func (s *kSvc) toSlice() *discovery.EndpointSlice {
 			NodeName:   &nn,
 			Conditions: discovery.EndpointConditions{Ready: &rdy, Serving: &srv, Terminating: &trm},
 		}
-		if s.hints {
+		if s.hints && !e.noHint {
 			ep.Hints = &discovery.EndpointHints{ForZones: []discovery.ForZone{{Name: e.hint}}}
 		}
 		sl.Endpoints = append(sl.Endpoints, ep)
